@@ -10,7 +10,7 @@ trap 'git -C /repo worktree remove --force "$WT" >/dev/null 2>&1; rm -rf "$WT"' 
 ok=0; bad=0
 for d in "$V"/seeded/*/; do
   id=$(basename "$d"); [[ -n "${1:-}" && "$id" != *"$1"* ]] && continue
-  P=$(/venv/bin/python -c "import json,sys; print(json.load(open('$d/meta.json'))['breaks_property'])")
+  P=$(/venv/bin/python -c "import json,sys; m=json.load(open('$d/meta.json')); print(m.get('detected_by') or m['breaks_property'])")
   expect=DETECTED; grep -q "NOT DETECTED" "$d/meta.json" && expect=NOT-DETECTED
   git -C "$WT" checkout -q -- . ; git -C "$WT" reset -q --hard HEAD; git -C "$WT" apply "$d/patch.diff" 2>/dev/null || git -C "$WT" apply --3way "$d/patch.diff" >/dev/null 2>&1 || { echo "$id: patch does not apply to the current tree (even 3-way)"; bad=$((bad+1)); continue; }
   out=$(cd "$V" && PBSIM_REPO="$WT" timeout 2400 ./check "$P" --tier quick --evidence-dir "$WT/.ev" 2>&1)
